@@ -20,8 +20,9 @@ from .symex import PyRaise, ReturnSig, BreakSig, ContinueSig, Env, Oracle
 
 
 class BodyPath:
-    def __init__(self, kind, value, pc, defs, trace, vars, ksdelta):
+    def __init__(self, kind, value, pc, defs, trace, vars, ksdelta, tags=()):
         self.kind, self.value, self.pc, self.defs, self.trace, self.vars, self.ksdelta = kind, value, pc, defs, trace, vars, ksdelta
+        self.tags = list(tags)
 
     @property
     def cond(self):
@@ -90,7 +91,7 @@ class LoopMixin:
                 kind = "ok"
             ksdelta = [(ks, ks.parts[len(old):]) for ks, old in ks_snap]
             results.append(BodyPath(kind, v, self.pc[base[0]:], self.defs[base[1]:], self.trace[base[2]:],
-                                    dict(env_child.vars) if env_child is not None else {}, ksdelta))
+                                    dict(env_child.vars) if env_child is not None else {}, ksdelta, self.tags[base[6]:]))
             prefix = self.oracle.next_prefix()
             del self.pc[base[0]:]
             del self.defs[base[1]:]
@@ -121,7 +122,7 @@ class LoopMixin:
         g = getattr(self, "_generic", [])
         self._generic = g + [bv]
         try:
-            paths = self.sub_explore(lambda: body(elem), env_child, ks_watch)
+            paths = self.sub_explore(lambda: (self.assume(domc(bv)), body(elem))[1], env_child, ks_watch)
         finally:
             self._generic = g
         if any(p.kind == "unsupported" for p in paths):
@@ -152,6 +153,7 @@ class LoopMixin:
             self.define(z3.substitute(d, *pairs))
         if domkind == "seq":
             self.assume_all_normal(bv, domc, normal, upto=j)
+        self.tags.extend(p.tags)
         self.trace.append(("loop-prefix", bv, j, [(q.cond, q.trace) for q in normal]))
         for ev in p.trace:
             self.trace.append(subst_event(ev, pairs))
